@@ -374,10 +374,25 @@ def concrete_playback(slot, prop, h, logdir, failed_checks=()):
     # a native failure confirms the solver's counterexample only if it is *the same* failure: its panic
     # message must contain the description of one of the checks Kani reported as failed
     wanted = [_norm(fc.get("description")) for fc in failed_checks if fc.get("description")]
+    # built-in panics (index / slice / arithmetic) are worded differently by Kani and by rustc: they match when the
+    # kind of panic (text before the first ':') is the same AND the native panic is at the same source line
+    def _site(loc):
+        m = re.search(r"(src/[^:\s]+):(\d+)", loc or "")
+        return (m.group(1), m.group(2)) if m else None
+    wanted_sites = {(_norm((fc.get("description") or "").split(":")[0]), _site(fc.get("location"))) for fc in failed_checks}
     for r in results:
         if r["status"] == "failed" and wanted:
             pm = _norm(r["panic"])
             r["matches_failed_check"] = any(w and (w in pm or pm in w) for w in wanted if len(w) > 8)
+            if not r["matches_failed_check"]:
+                loc, _, msg = (r["panic"] or "").partition(": ")
+                msg = msg or r["panic"]
+                # r["panic"] = "<file>:<line>:<col>: <message first line>"
+                mm = re.match(r"\s*(\S+?):(\d+):\d+:?\s*(.*)", r["panic"] or "")
+                if mm:
+                    site = _site(mm.group(1) + ":" + mm.group(2))
+                    kind = _norm(mm.group(3).split(":")[0])
+                    r["matches_failed_check"] = any(k and len(k) > 10 and k == kind and st is not None and st == site for k, st in wanted_sites)
             if not r["matches_failed_check"]:
                 r["status"] = "failed-elsewhere"
     if any(r["status"] == "failed" for r in results):
